@@ -205,3 +205,23 @@ func zzH_C01_vote_rules(t *zzT) {
 	t.ObserveU64("prevoted", uint64(v.maxHeightPrevoted))
 	t.Reach("end")
 }
+
+// C09 (hang on a received block): the vote step a received block header triggers
+// (updatePrevotesPrecommits incl. getHeightNotPrevoted, updateMaxHeightPrevoted,
+// updateMaxHeightPrecommitted) returns for an arbitrary symbolic window of L headers — every field of
+// every header full-width symbolic, in particular maxHeightGenerated equal to the header's own height
+// or pointing anywhere. The loops of these functions are bounded by the window length; exceeding the
+// unwinding bound is reported as a hang (and must hang natively), a panic as a panic.
+//
+//zz:opt loop=16 merge=~/pkg/collection/ints.Max[uint32],~/pkg/collection/ints.Min[uint32] require=returned
+//zz:quick L=3 n=2 sets=1
+//zz:thorough L=5 n=2 sets=1 budget=1800s
+func zzH_C09_vote_step_returns(t *zzT) {
+	L, n := t.Param("L", 3), t.Param("n", 2)
+	s := zzBuildBFT(t, L, n, t.Param("sets", 1))
+	v := s.votes
+	_ = v.updatePrevotesPrecommits(s.cache)
+	_ = v.updateMaxHeightPrevoted(s.cache)
+	_ = v.updateMaxHeightPrecommitted(s.cache)
+	t.Reach("returned")
+}
